@@ -493,3 +493,26 @@ def asarray_of_params_hook(params):
                 return args[0]
         return None
     return hook
+
+
+def computed_return(ev):
+    """The value a getter computes, reading past a memo in front of it: returns that only hand back an attribute the path has just tested
+    to be there (`if hasattr(self, "_v"): return self._v`) are not the definition; whether such a memo is kept valid is the cache rule's
+    business (R<nn>.9).  -> the remaining return event (the last one when several remain)."""
+    rest = []
+    for r in ev.returns:
+        if r.value is None:
+            continue
+        a = r.value.as_atom()
+        attr = None
+        if a and a[0] == "attr" and a[1].key() == "self":
+            attr = a[2]
+        elif a and a[0] == "call" and call_name(a) == "getattr" and len(a[2]) >= 2 and a[2][0].key() == "self" and string_value(a[2][1]):
+            attr = string_value(a[2][1])
+        if attr is not None and attr.startswith("_") and any(pol and attr in c.key() and ("hasattr(self" in c.key() or "None" in c.key()) for c, pol in r.guards) \
+                and any(e.kind == "store" and e.target.key() == f"self.{attr}" or
+                        (e.kind == "call" and call_name(e.value.as_atom() or ()) == "setattr" and len(e.extra["args"]) == 3 and string_value(e.extra["args"][1]) == attr)
+                        for e in ev.events):
+            continue
+        rest.append(r)
+    return rest[-1] if rest else (ev.returns[-1] if ev.returns else None)
